@@ -255,3 +255,73 @@ Definition c03_hist_case (B : nat) (obs : list (list Q)) (impl_data : list Q)
          qmat_eqb (hist_loo B obs) impl_samples;
          qlist_eqb (hist_data B obs) impl_data;
          negb (qmat_eqb (rev (hist_loo B obs)) impl_samples) || qmat_eqb (hist_loo B obs) impl_samples ].
+
+(* ------------------------------------------------ samples with undefined entries
+   A jackknife sample can be undefined in a bin: 0/0 or x/0 when the bin is populated from a single
+   patch and that patch is left out, the root of a negative number in the n(z) formula.  The
+   implementation then holds a non-finite float (NaN, +inf, -inf), here [None].  The covariance is
+   taken entry-wise: entry (i,j) is a function of columns i and j of the N samples only; it is
+   defined when both columns are defined in ALL N samples and is then the delete-one covariance
+   over ALL N samples, and it is undefined otherwise (IEEE: the mean of the column is not a
+   number).  No sample is ever dropped. *)
+Definition is_some (x : oq) : bool := match x with Some _ => true | None => false end.
+Definition unsome1 (x : oq) : Q := match x with Some q => q | None => 0 end.
+Definition ocol (X : list (list oq)) (i : nat) : list oq := map (fun r => nth i r None) X.
+Definition col_defined (X : list (list oq)) (i : nat) : bool := forallb is_some (ocol X i).
+(* undefined -> 0: a filler that the defined entries never read (Proofs: cov_code_columns) *)
+Definition fill (X : list (list oq)) : list (list Q) := map (map unsome1) X.
+Definition cov_opt (X : list (list oq)) (i j : nat) : option Q :=
+  if col_defined X i && col_defined X j then Some (cov_eval (fill X) i j) else None.
+Definition cov_opt0 (X : list (list oq)) (i j : nat) : Q := unsome1 (cov_opt X i j).
+(* the alternative that the property excludes: estimate from the complete samples only *)
+Definition row_defined (r : list oq) : bool := forallb is_some r.
+Definition complete_rows (X : list (list oq)) : list (list oq) := filter row_defined X.
+Definition cov_drop (X : list (list oq)) (i j : nat) : Q := cov_code (fill (complete_rows X)) i j.
+(* a probe vector restricted to the defined bins *)
+Definition mask_probe (X : list (list oq)) (v : list Q) : list Q :=
+  mapi_from 0 (fun i x => if col_defined X i then x else 0) v.
+
+(* covariance and error of a SampledData whose samples may hold non-finite values (X, N >= 2 rows);
+   impl_cov / impl_err: None = a non-finite float.
+   flag0: the reported entries are numbers exactly where the model's are (both bins defined in all
+          samples) - the tie between model and implementation;
+   flag1: for every pair of bins defined in all samples the reported entry is the delete-one
+          jackknife covariance of ALL N samples (the property);
+   flag2: symmetric on these pairs;  flag3: error^2 = diagonal, error >= 0 on the defined bins;
+   flag4: v^T C v >= 0 for probe vectors supported on the defined bins *)
+Definition c03_covopt_case (X : list (list oq)) (impl_cov : list (list oq)) (impl_err : list oq)
+           (probes : list (list Q)) : nat :=
+  let Xf := fill X in
+  let B := ncols Xf in
+  let idx := seq 0 B in
+  let def := map (col_defined X) idx in
+  let d i := nth i def false in
+  let entry i j := nth j (nth i impl_cov []) None in
+  let entry0 i j := unsome1 (entry i j) in
+  let err i := nth i impl_err None in
+  code [ Nat.eqb (length impl_cov) B && forallb (fun r => Nat.eqb (length r) B) impl_cov
+           && Nat.eqb (length impl_err) B
+           && forallb (fun i => Bool.eqb (is_some (err i)) (d i)
+                && forallb (fun j => Bool.eqb (is_some (entry i j)) (d i && d j)) idx) idx;
+         forallb (fun i => forallb (fun j =>
+                if d i && d j
+                then match entry i j with
+                     | Some c => Qnear tol44 c (cov_eval Xf i j) (cov_scale Xf i j)
+                     | None => false
+                     end
+                else true) idx) idx;
+         forallb (fun i => forallb (fun j =>
+                if d i && d j
+                then Qnear tol44 (entry0 i j) (entry0 j i) (cov_scale Xf i j)
+                else true) idx) idx;
+         forallb (fun i =>
+                if d i
+                then match err i with
+                     | Some e => Qleb 0 e && Qclose (4 * tol48) (e * e) (entry0 i i)
+                     | None => false
+                     end
+                else true) idx;
+         (let S := map (fun i => map (fun j => cov_scale Xf i j) idx) idx in
+          let sc i j := nth j (nth i S []) 0 in
+          forallb (fun v => let w := mask_probe X v in
+                     Qleb (- (tol44 * quad B (map Qabs w) sc)) (quad B w entry0)) probes) ].
